@@ -52,6 +52,9 @@ def data_model(backend: str) -> List[Dict[str, Any]]:
         mds.append({"metadata_type": "add_method_type_info", "type_string": ELEM[c], "method_name": "o", "return_type": ELEM[o] + "*"})
         mds.append({"metadata_type": "add_method_type_info", "type_string": ELEM[c], "method_name": "os", "return_type_element": ELEM[o] + "*"})
         mds.append({"metadata_type": "add_method_type_info", "type_string": ELEM[c], "method_name": "vs", "return_type_element": "double"})
+        # a method whose declared return type is an enum the query defines with another MetaData call (two
+        # interdependent items: their relative position must not matter)
+        mds.append({"metadata_type": "add_method_type_info", "type_string": ELEM[c], "method_name": "col", "return_type": "mdlns::Color"})
     mds.append(
         {"metadata_type": "add_cpp_function", "name": "twice", "include_files": ["mdl/fn.h"], "arguments": ["x"], "code": ["double r = x*2;"], "result_name": "r", "return_type": "double"}
     )
@@ -179,6 +182,20 @@ def extra_md(rng, backend: str) -> List[Dict[str, Any]]:
     return out
 
 
+def enum_typed_md(rng) -> List[Dict[str, Any]]:
+    """an enum and the type information of methods that return it / a value of another, undeclared enum (for the
+    process_metadata stream: what is recorded for the method must not depend on where the enum's definition sits)"""
+    out: List[Dict[str, Any]] = [dict(ENUMS[0])]
+    out.append({"metadata_type": "add_method_type_info", "type_string": ELEM["A"], "method_name": "col", "return_type": "mdlns::Color"})
+    if rng.random() < 0.5:
+        out.append({"metadata_type": "add_method_type_info", "type_string": ELEM["B"], "method_name": "knd", "return_type": "xns::sub::Kind"})
+    if rng.random() < 0.5:
+        out.append(dict(ENUMS[1]))
+    if rng.random() < 0.3:
+        out.append({"metadata_type": "add_method_type_info", "type_string": ELEM["B"], "method_name": "col", "return_type": "mdlns::Color", "tree_type": "short"})
+    return out
+
+
 class Gen:
     def __init__(self, rng, backend: str, style: Optional[str] = None):
         self.rng = rng
@@ -187,6 +204,10 @@ class Gen:
         self.style = style or rng.choice(["call", "method", "mixed"])
         self.features: Dict[str, int] = {}
         self.enums: List[Dict[str, Any]] = []  # the enums the query may mention (make_query decides)
+        # predicates already used on an element type: (parameter, body) closed up to the parameter.  An inner lambda over
+        # the same element type repeats one of them now and then (the same text in a nested scope: with the renamer's
+        # shadowing the two parameters get the same spelling in a variant)
+        self.echo: Dict[Any, List[Tuple[str, T.Term]]] = {}
 
     def feat(self, k: str):
         self.features[k] = self.features.get(k, 0) + 1
@@ -313,11 +334,37 @@ class Gen:
             # `j.i() == mdlns.Color.Red`: the namespace is a free name of the query
             n, _ = r.choice(objs)
             self.feat("enum-constant")
-            return N("cmp:" + r.choice(["Eq", "Eq", "NotEq"]), meth(V(n), "i"), enum_constant(r, r.choice(self.enums)))
+            en = r.choice(self.enums)
+            if en["name"] == "Color" and r.random() < 0.4:
+                self.feat("enum-typed-method")
+                return N("cmp:" + r.choice(["Eq", "Eq", "NotEq"]), meth(V(n), "col"), enum_constant(r, en))
+            return N("cmp:" + r.choice(["Eq", "Eq", "NotEq"]), meth(V(n), "i"), enum_constant(r, en))
         if c in ("and", "or"):
             self.feat("boolop")
             return N("bool:" + ("And" if c == "and" else "Or"), self.boolean(env, d - 1), self.boolean(env, d - 1))
         return N("un:Not", self.boolean(env, d - 1))
+
+    def predicate(self, env, d: int, x: str, et: Any) -> T.Term:
+        """the body of a Where over parameter x: new, or (for objects) the text of an earlier predicate on this type"""
+        r = self.rng
+        if isinstance(et, tuple) and et[0] == "obj" and et[1] in "AB":
+            old = self.echo.get(et, [])
+            if old and r.random() < 0.4:
+                y, b = r.choice(old)
+                self.feat("echo-predicate")
+                return T.subst_free(b, y, V(x))
+            if r.random() < 0.35:
+                # a predicate built from the plug-ins (their translation goes through name-keyed rewriting)
+                c = C(r.choice([1, 2]))
+                lhs = r.choice([meth(V(x), "scaled", c) if et[1] == "A" else call("twice", meth(V(x), "d")), call("twice", meth(V(x), "d")), meth(V(x), "d")])
+                b = N("cmp:" + r.choice(["Gt", "Lt"]), lhs, C(r.choice([0.5, 1.5])))
+                self.feat("cppmethod" if lhs[1][0] == "n" and lhs[1][1] == "attr:scaled" else "plugin-predicate")
+            else:
+                b = self.boolean(env, d)
+            if set(T.free_vars(b)) - {x} <= {"twice", "sin", "sqrt", "abs", "mdlns", "xns"}:
+                self.echo.setdefault(et, []).append((x, b))
+            return b
+        return self.boolean(env, d)
 
     def obj(self, env, d: int) -> Optional[Tuple[T.Term, Any]]:
         r = self.rng
@@ -370,7 +417,7 @@ class Gen:
             if k == "Where":
                 if isinstance(et, tuple) and et[0] == "seq":
                     continue
-                s = self.op("Where", s, L([x], self.boolean(env2, d - 1)))
+                s = self.op("Where", s, L([x], self.predicate(env2, d - 1, x, et)))
 
             elif k == "Select":
                 if isinstance(et, tuple) and et[0] == "seq":
@@ -422,6 +469,10 @@ class Gen:
         if d > 0 and self.rng.random() < 0.4 and self.can_seq(env):
             s, _ = self.seq(env, d - 1, elem="num")
             return s
+        objs = self.vars_of(env, lambda t: isinstance(t, tuple) and t[0] == "obj" and t[1] in "AB")
+        if objs and any(e["name"] == "Color" for e in self.enums) and self.rng.random() < 0.25:
+            self.feat("enum-typed-method")
+            return meth(V(self.rng.choice(objs)[0]), "col")
         return self.num(env, d)[0]
 
     def terminal(self, env, d: int) -> T.Term:
@@ -477,6 +528,13 @@ class Gen:
                     s = self.op("Select", s, L([x], b))
                     et = bt
             else:
+                if isinstance(et, tuple) and et[0] == "obj" and et[1] in "AB":
+                    b, bt = self.seq(env, depth - 1)
+                    if not (isinstance(bt, tuple) and bt[0] == "seq"):
+                        s = self.op("SelectMany", s, L([x], b))
+                        et = bt
+                        self.feat("selectmany-over-objects")
+                    continue
                 if et == "ev" or (isinstance(et, tuple) and et[0] == "seq" and not (isinstance(et[1], tuple) and et[1][0] == "seq")):
                     b, bt = self.base_seq(env) if et == "ev" else (V(x), et)
                     if et != "ev" and r.random() < 0.5:
@@ -508,6 +566,8 @@ def needed_model(q: T.Term, backend: str) -> List[Dict[str, Any]]:
             used.add(s[1][5:])
         if s[0] == "v":
             used.add(s[1])
+    if "col" in used:
+        used.add("Color")
     out = []
     for m in data_model(backend) + enum_model():
         name = m.get("method_name") or m.get("name")
